@@ -168,9 +168,9 @@ ADDENDA.update({
  'C03': 'Also: the (indices, axis) form, the orthogonal conversion (shared with C01) and the values setter (stores the widened buffer it writes into); option-plumbing table (RF).',
  'C04': 'Also: align_dims returns its inputs untouched only when the ordered dims coincide; the kind reconciliation ahead of the label merge (common-kind table, full-width cast) shared with C06.',
  'C05': 'Also: an Axes list grows only through the checked Axes.append (no extend / += / raw list primitives); the label-list constructor form is recognised by element type (empty lists included).',
- 'C06': 'Also: direction of the common axis for lists of inputs (union table composed over the fold; one more known finding); Axis.__eq__ exact; placeholder-only skipping in the fold; _check_axes_merge casts with a full-width dtype and only when kinds differ; _get_cast_kind table; direction of the sorted union for every pair of operand directions '
+ 'C06': 'Also: direction of the common axis for lists of inputs (union table composed over the fold; the known finding); Axis.__eq__ exact; placeholder-only skipping in the fold; _check_axes_merge casts with a full-width dtype and only when kinds differ; _get_cast_kind table; direction of the sorted union for every pair of operand directions '
         '(increasing / decreasing / single label); first / last labels are read only under a size guard; Dataset.reindex_axis cross-checked against DimArray.reindex_axis. '
-        'Two known findings (reindexing an empty source axis; fold direction with two single-label inputs after a decreasing one).',
+        'One known finding (fold direction with two single-label inputs after a decreasing one); reindexing an empty source axis is handled (repaired).',
  'C07': 'Also: the locate_many contract (searchsorted over argsort, mapped back, past-the-end clipped) and the (indices, axis) form of _get_indices, shared with C01.',
  'C08': 'Also: scalar-vs-array dispatch of reduction results uses dimensionality, never size == 1; flatten rules shared with C11.',
  'C09': 'Also: the values setter used by argmin / argmax, apply_along_axis coherence (shared with C08), _deal_with_axis and flatten (shared).',
@@ -186,3 +186,23 @@ ADDENDA.update({
  'C18': 'Also: integer fibres are promoted to float before the difference; interp_like skips a shared dimension only on exact label equality.',
  'C19': 'Also: the reader uses the written shape (nested lists lose it for empty dimensions), does not consume its input dict, and the constructor takes label lists of any length.',
 })
+
+
+# --- rules added in rounds 3-4 (appended) -------------------------------------------------------------------------------------------------
+for _pid, _extra in {
+ 'C01': 'Round 4: .ix as a scenario table over (own mode, indexing.by); the tolerance path returns integer positions also when empty, refuses an empty axis with IndexError, and a TypeError of the sorted search becomes IndexError; an unconverted array index counts as advanced in the orthogonal_indexer table.',
+ 'C03': 'Round 4: the per-dimension bookkeeping of _get_indices (shared with C01).',
+ 'C04': 'Round 4: first-label reads of operation() under a size guard; NumPy scalars on the left defer to the reflected operators (__array_priority__ / __array_ufunc__); result axes either by the own-axis / placeholder loop or as copies of _get_axes (choice table shared with C10); sharing an Axis object with an operand is not required or forbidden.',
+ 'C05': 'Round 4: Axes.from_shape compares the number of names with the number of dimensions; is_array1d_equiv reads the first element only when there is one (short-circuit aware); the JSON reader lays values out by the recorded shape (shared with C19).',
+ 'C06': 'Round 4: ordered-ness predicates (shared with C02); Dataset.reduce_axis rebuilds variables with their axes in their own dimension order (shared with C14).',
+ 'C07': 'Round 4: Dataset.reduce_axis per-variable position and axis order (shared with C14).',
+ 'C08': 'Round 4: _median_with_nan path-wise (NaN test along the axis of the median, for axis in 0, 1, 2, -1, None); masked results as a scenario table over (function name, dtype kind of the masked result) incl. the float64 scalar constant np.ma.masked; percentile resolves its axis through _deal_with_axis (tuples).',
+ 'C10': 'Round 4: broadcast repeat decision table over (own size 1, target size 1, placeholder); _get_axes common-axis choice table (placeholder gives way to any real axis, one label to several).',
+ 'C11': 'Round 4: insertion point for negative positions (counted from the end of the remaining dimensions, never looping); the label table of a group is only built from a non-empty list of combinations.',
+ 'C12': 'Round 4: bounded check of the normalised concatenation position for 1-4 dimensions; transpose permutation and the common-axis fold (shared with C10 / C06).',
+ 'C13': 'Round 4: the message of the rejecting ValueError (str of an Axis) reads end labels only under a size guard; rename_keys(inplace=False) touches only the returned copy.',
+ 'C14': 'Round 4: rebuilt variables list their axes in their own dimension order; _get_indices bookkeeping (shared with C01).',
+ 'C16': 'Round 4: take(broadcast=True) takes a single array-indexed axis from the Axis object (metadata kept); Dataset.reindex_axis relabels the existing axis (shared with C14).',
+ 'C17': 'Round 4: the put writers store the widened array they write into (shared with C03).',
+}.items():
+    ADDENDA[_pid] = (ADDENDA.get(_pid, '') + ' ' + _extra).strip()
